@@ -879,6 +879,9 @@ done:
 					}
 				}
 			} else {
+				// The marker is shared by the siblings of prev, the next one
+				// has to be expanded as well.
+				stack[len(stack)-1] = di &^ descentFlag
 				stack = append(stack, prev)
 			}
 		case Root:
